@@ -64,7 +64,16 @@ def check(ctx):
                 nxt = None
                 if body is not None:
                     i = [k for k, x in enumerate(body) if x is holder][0]
-                    nxt = body[i + 1] if i + 1 < len(body) else None
+                    j = i + 1
+                    # statements that cannot raise (pass, NAME = <constant>) do not open a window between acquire and try
+                    def _inert(s_):
+                        return (isinstance(s_, ast.Pass)
+                                or (isinstance(s_, ast.Assign) and isinstance(s_.value, ast.Constant) and all(isinstance(t_, ast.Name) for t_ in s_.targets))
+                                or (isinstance(s_, ast.Assert) and isinstance(s_.test, ast.Constant) and bool(s_.test.value))
+                                or (isinstance(s_, ast.Expr) and (isinstance(s_.value, ast.Constant) or unparse(s_.value) == "__debug__ and None")))
+                    while j < len(body) and _inert(body[j]):
+                        j += 1
+                    nxt = body[j] if j < len(body) else None
                 ok = isinstance(nxt, ast.Try) and bool(nxt.finalbody)
                 detail = "" if ok else "acquire() is not immediately followed by try/finally"
                 if ok:
